@@ -209,11 +209,6 @@ theorem executeMergeTask_misaligned_witness :
 
 /-! ## refinement over all histories -/
 
-theorem batchesOf_app (a b : List Event) : batchesOf (a ++ b) = batchesOf a ++ batchesOf b := by
-  induction a with
-  | nil => rfl
-  | cons e t ih => cases e <;> simp [batchesOf, ih]
-
 /-- **refinement** (C01's theorem, restated for C06): for every well-formed history of batches interleaved with any
 in-memory merges, file merges, skipped merges and persist swaps, the live documents of the root are a permutation of
 the abstract index of the batches in introduction order -/
